@@ -279,6 +279,16 @@ def execute(spec, cache=None):
                     log.append(('invalid', op[1][0], 'accepted'))
     except Fail as f:
         return log, (f, step)
+    except Exception as e:
+        # an exception escaping from library code on an operation the model takes to be valid
+        # (e.g. a filler construction) is the library's failure, not the harness's
+        import traceback
+        tb = traceback.extract_tb(e.__traceback__)
+        if tb and '/pytableaux/' in tb[-1].filename:
+            site = '%s:%s' % (tb[-1].filename.rsplit('/', 1)[1].replace('.py', ''), tb[-1].name)
+            return log, (Fail('raises', '%s@%s' % (type(e).__name__, site), 'operation %r raised %s: %s' % (
+                spec['ops'][step][:2], type(e).__name__, str(e)[:200])), step)
+        raise
     return log, None
 
 def remake(key, tn):
@@ -291,7 +301,9 @@ def remake(key, tn):
     if key[0] == 'Sentence':
         return lexgen.build(key[1])
     if key[0] == 'Argument':
-        return lexgen.build_argument(list(key[2]), key[1])
+        # the title is documented as not part of an argument's value: the second construction
+        # carries one, the first did not
+        return Argument(lexgen.build(key[1]), tuple(lexgen.build(p) for p in key[2]), title='constructed again')
     return None
 
 def show(key):
